@@ -1183,7 +1183,9 @@ func ruleLatch(c *Ctx, rule string) {
 	//   copy(chans[i:…], chans[i+1:]); chans[len-1] = zero; chans = chans[:len-1]
 	// where a slot that is cleared afterwards is the LAST one (clearing slot i wipes the entry that was just moved there)
 	okShape, whyShape := false, "unrecognised deletion shape"
-	sameIdx := func(a, b ssa.Value) bool { return a != nil && b != nil && (stripConv(a) == stripConv(b) || origin(a) == origin(b)) }
+	sameIdx := func(a, b ssa.Value) bool {
+		return a != nil && b != nil && (stripConv(a) == stripConv(b) || origin(a) == origin(b))
+	}
 	isIdxPlus1 := func(v, i ssa.Value) bool {
 		b, ok := stripConv(v).(*ssa.BinOp)
 		if !ok || b.Op != token.ADD {
